@@ -13,6 +13,14 @@ CLAIMED = {
     note='Trusted: clang-14 front end, ll2c translator (validated against the repository test-suite), CBMC, the abstract model in harness/C15_hist.c, '
          'vasprintf stub; allocation does not fail; values are non-NaN; operation kinds and resize shapes are enumerated, not symbolic.',
     design='DESIGN.md section 4 / C15'),
+ 'C03': dict(
+    technique='CBMC 6.11 memory-safety / UB / leak instrumentation (bounds, pointer validity, use-after-free, double free, overflow, shifts, library assert(), unwinding assertions, --memory-leak-check) on the bounded API-history harnesses of the object families (clang-14 IR -> ll2c -> CBMC, and CBMC native for vnaproperty)',
+    text='Bounded proof with CBMC: along every bounded API history of the family harnesses - vnadata (plans of 1..5 operations with symbolic indices -1..n+1), vnaproperty (API steps from 12 trees, containers '
+         'with symbolic subscripts/keys, quote_key on arbitrary bytes), calibration slot table (inductive step from any table), parameter handles, vnadata_convert (all type pairs), the Touchstone loader on short '
+         'inputs, single allocation faults in vnadata, and number formatting for all precisions - the real code touches only memory it owns, executes no undefined behaviour CBMC instruments, trips no library assert(), '
+         'and leaves nothing allocated after the matching free; invalid arguments are answered with the documented failure value.',
+    note='Trusted: as the family harnesses. NOT covered: vnacal_new add/solve/apply histories, save/load I/O paths, NPD and YAML (libyaml) code, histories longer than the stated depths.',
+    design='DESIGN.md section 4 / C03'),
  'C04': dict(
     technique='symbolic interpretation of the real vnaconv_*.c (clang-14 IR -> vf/irsym.py, exact rational functions over the reals) with z3 (QF_NRA) deciding the port relations of vnaconv(3); models replayed numerically on the gcc-compiled function',
     text='Exact algebraic proof per function (no sampling): for all 72 two-port conversions and the 9 two-port input-impedance functions, with every matrix entry and reference '
